@@ -586,14 +586,18 @@ def has_wide_piece(raw) -> bool:
 
 
 def cc_observe(cc, win: Win, S2):
-    for p in range(win.M):
+    pos, neg = list(cc.positive.codepoints), list(cc.negative.codepoints)
+    points = range(win.M)
+    if has_wide_piece(neg):
+        # every `in` costs a full walk of `negative` (bool(UnicodeSubset) is len()): two probes only
+        points = [min(set(points) - win.wide), max(win.wide)]
+    for p in points:
         want = p in S2
-        for cp in win.probes(p):
+        for cp in win.probes(p)[:3 if points is not None and len(points) > 2 else 1]:
             if (cp in cc) != want:
                 return 'contains'
-        if (chr(win.R(p)) in cc) != want:
+        if len(points) > 2 and (chr(win.R(p)) in cc) != want:
             return 'contains'
-    pos, neg = list(cc.positive.codepoints), list(cc.negative.codepoints)
     if not has_wide_piece(neg) and not has_wide_piece(pos):
         if len(cc) != sum(win.width(p) for p in S2):
             return 'len'
